@@ -15,6 +15,7 @@ RULE = (
     "and label for label; distinct by hash of (table entries, string) / program text; non-trivial = at least one table entry matched"
 )
 ASSUMPTIONS = [
+    "a third of the tables map non-ASCII characters (accented letters, kana, an astral character); 30 % of the table files carry blank lines and lines that start with ; # or // (no entries); "
     "table files end their lines with LF or (15 %) CR LF; table lines are HEX=text or HEX:N=text (N parameter bytes follow the code when decoding) with an even number of hex digits; the decoder "
     "round trip is judged for strings that match no entry with parameters",
     "strings contain no newline and no backslash except in \\' (an escaped quote inside a quoted string: backslash and quote both stay characters "
@@ -23,6 +24,7 @@ ASSUMPTIONS = [
 ]
 
 ALPHA = "abcdeABCXYZ019 _-.,!?[]x="
+UNI = "\u00e9\u00e0\u00e7\u00df\u0130\u3042\u30a2\u00f1\u20ac\U0001F600\u00c9"      # accented letters, kana, a letter whose lower case is two characters, an astral character
 UNKNOWN = "qQ~#@%&*+/<>|{}"
 
 
@@ -60,8 +62,9 @@ def gen_entries(rng: random.Random) -> list[tuple[bytes, str]]:
         rng.shuffle(out)
         return out
     texts: list[str] = []
+    uni = list(UNI) if rng.random() < 0.35 else []      # translation tables map accented letters and kana
     if style == "single":
-        pool = list(ALPHA)
+        pool = list(ALPHA) + uni
         rng.shuffle(pool)
         texts = pool[:n]
     else:
@@ -72,9 +75,9 @@ def gen_entries(rng: random.Random) -> list[tuple[bytes, str]]:
             if c < 0.5 and texts:
                 t = rng.choice(texts) + rng.choice(base + list("AB"))  # overlapping prefixes: a, ab, abc
             elif c < 0.7:
-                t = "".join(rng.choice(ALPHA) for _ in range(rng.randint(2, 5)))
+                t = "".join(rng.choice(ALPHA + "".join(uni)) for _ in range(rng.randint(2, 5)))
             else:
-                t = rng.choice(ALPHA)
+                t = rng.choice(ALPHA + "".join(uni))
             if t not in texts and t.strip() != "" or t == " ":
                 if t not in texts:
                     texts.append(t)
@@ -105,6 +108,8 @@ def gen_string(rng: random.Random, ref: RefTable) -> str:
             out.append(rng.choice(texts))
         elif c < 0.7:
             out.append(rng.choice(ALPHA))
+        elif c < 0.74:
+            out.append(rng.choice(UNI))
         elif c < 0.8:
             out.append(rng.choice(UNKNOWN))
         elif c < 0.92:
@@ -130,7 +135,8 @@ def run_api(shard: dict, res: Res) -> None:
     for ti in range(shard["tables"]):
         entries = gen_entries(rng)
         ref = RefTable(entries)
-        text = render_table(entries)
+        noise = rng.getrandbits(30) if rng.random() < 0.3 else None       # commented-out and blank lines between the entries
+        text = render_table(entries, noise)
         crlf = rng.random() < 0.15
         if crlf:
             text = text.replace("\n", "\r\n")      # table files written by Windows tools end their lines with CR LF
@@ -144,7 +150,7 @@ def run_api(shard: dict, res: Res) -> None:
         res.see("table_styles", (len(entries), max(len(e[1]) for e in entries), max(len(e[0]) for e in entries), ref.codes_unique_prefix_free(), bool(ref.params)))
         for si in range(shard["strings"]):
             s = gen_string(rng, ref)
-            check_pair(res, table, ref, entries, s, crlf)
+            check_pair(res, table, ref, entries, s, crlf, noise)
             if ti == 0 and si < 2:
                 try:
                     res.sample({"kind": "api", "table": text[:200], "string": s, "bytes": ref.to_bytes(s).hex()})
@@ -152,8 +158,8 @@ def run_api(shard: dict, res: Res) -> None:
                     pass
 
 
-def check_pair(res: Res, table, ref: RefTable, entries, s: str, crlf: bool = False) -> None:
-    wit = {"kind": "api", "entries": ser(entries), "s": s, "crlf": crlf}
+def check_pair(res: Res, table, ref: RefTable, entries, s: str, crlf: bool = False, noise: int | None = None) -> None:
+    wit = {"kind": "api", "entries": ser(entries), "s": s, "crlf": crlf, "noise": noise}
     try:
         toks = ref.tokens(s)
     except Unspecified:
@@ -383,10 +389,10 @@ def replay(w: dict) -> Res:
         from script import Table
 
         entries = deser(w["entries"])
-        text = render_table(entries)
+        text = render_table(entries, w.get("noise"))
         with Scratch({"t.tbl": text.replace("\n", "\r\n") if w.get("crlf") else text}):
             table = Table("t.tbl")
-        check_pair(res, table, RefTable(entries), entries, w["s"], bool(w.get("crlf")))
+        check_pair(res, table, RefTable(entries), entries, w["s"], bool(w.get("crlf")), w.get("noise"))
     else:
         check_program(res, w["prog"])
     return res
